@@ -1,5 +1,6 @@
 pub mod core;
 pub mod engine;
+pub mod fuzzapi;
 pub mod gen;
 pub mod isolate;
 pub mod jsongen;
